@@ -803,7 +803,9 @@ def run(run: Run):
     muted_all = {}
     for cfg in CFGS:
         n0, keys0 = len(run.violations), dict(run._viol_keys)
-        d = depth
+        # the two cfgs added for one mechanism each (not-yet-alive circuit, self-unsubscribing subscribers) stop one event
+        # short of the thorough horizon; quick searches all four to the same depth
+        d = depth if cfg in ("solo", "shared") else max(QUICK_DEPTH, depth - 1)
         # pass 1 (all clauses) runs to the quick horizon: it names the (clause, site) pairs that fail on this tree.
         # The explorer never extends a violating history, so pass 2 re-explores to the full horizon with exactly those
         # pairs muted (every other clause stays armed): what lies *behind* a known violation is still searched.
